@@ -112,7 +112,17 @@ class Asn1Anchors:
             ps = flushed
         if len(ps) != 1:
             raise AnalysisError("ASN1Writer.__exit__ does not hand the result of exactly one TLV packing routine to the parent writer")
-        self.packer = ps[0]
+        self.packer_entry = ps[0]          # what __exit__ calls (may be a thin wrapper that takes the tag as one value)
+        core = ps[0]
+        for _ in range(3):
+            anns = [norm(a.annotation) if a.annotation is not None else "" for a in core.node.args.args]
+            if any(x.endswith("TagClass") for x in anns):
+                break
+            nxt = [f for f in module_callees(model, core) if any((norm(a.annotation) if a.annotation is not None else "").endswith("TagClass") for a in f.node.args.args)]
+            if len(nxt) != 1:
+                break
+            core = nxt[0]
+        self.packer = core                 # the routine that builds identifier and length octets from class / constructed / number
         self.exit_method = ex
         self.packer_family = reachable(model, self.packer)
         self.number_writers = self._number_consumers()
